@@ -249,14 +249,16 @@ def check(case, ctx):
                          % (where, ys.shape, len(idx)))
                 if ys.shape[0] == len(idx) and len(idx) > 0:
                     ctx.equal("y_selected==y[idx]", ys.reshape(len(idx), -1), np.asarray(y, float)[idx].reshape(len(idx), -1), where)
-        sup = sel.support_
         exp = np.zeros(N, bool)
         exp[idx[(idx >= 0) & (idx < N)]] = True
+        with ctx.lib("derived views (%s)" % where):
+            sup = np.asarray(sel.support_)
+            gs0, gs1, gs2 = sel.get_support(), sel.get_support(indices=True), sel.get_support(indices=True, ordered=True)
         ctx.true("support-dtype", sup.dtype == bool and sup.shape == (N,), "%s: support_ %s %s" % (where, sup.dtype, sup.shape))
         ctx.equal("support==idx", sup, exp, where)
-        ctx.equal("get_support()", sel.get_support(), exp, where)
-        ctx.equal("get_support(indices)", np.asarray(sel.get_support(indices=True)), np.sort(idx), where)
-        ctx.equal("get_support(indices,ordered)", np.asarray(sel.get_support(indices=True, ordered=True)), idx, where)
+        ctx.equal("get_support()", gs0, exp, where)
+        ctx.equal("get_support(indices)", np.asarray(gs1), np.sort(idx), where)
+        ctx.equal("get_support(indices,ordered)", np.asarray(gs2), idx, where)
         if axis == 1:
             with ctx.lib("transform"):
                 Xt = sel.transform(X)
